@@ -175,6 +175,7 @@ type c13Slot struct {
 	putBefore time.Time
 	putAfter  time.Time
 	maxSeen   int64 // highest seq ever observed stored since the last time the slot was empty
+	slept     bool  // a planned sleep past the expiry (= a model clock advance) happened since the last accepted put
 }
 
 type c13Hist struct {
@@ -243,6 +244,7 @@ func (h *c13Hist) put(sl *c13Slot, priv []byte, pub *[32]byte, it *b44Item) {
 			sl.maxSeen = it.seq
 		}
 		sl.present, sl.cur, sl.putBefore, sl.putAfter = true, it, before, after
+		sl.slept = false
 	}
 }
 
@@ -300,6 +302,13 @@ func (h *c13Hist) get(sl *c13Slot, pub *[32]byte) {
 			r.hist("unmodelled/ambiguous-timing")
 			return
 		case "expired":
+			if !sl.slept {
+				// expired by real time although the history never slept: the machine is slow, the model's
+				// clock (advanced only by planned sleeps) still has the item. Not a judgement on the code.
+				h.dead = true
+				r.hist("unmodelled/ambiguous-timing")
+				return
+			}
 			h.emit(op, got)
 			r.hist("seq-get/expired/" + strings.Fields(got)[0])
 			if got != "notfound" {
@@ -402,6 +411,9 @@ func c13History(r *Run, kind string, expiry bool) {
 			if sleeps < 2 {
 				time.Sleep(h.exp + 5*time.Millisecond)
 				h.emit(fmt.Sprintf("B44 advance %d", h.exp.Nanoseconds()), "ok")
+				for _, sl := range h.slots {
+					sl.slept = true
+				}
 				sleeps++
 				r.hist("seq-sleep-past-expiry")
 			}
